@@ -134,7 +134,7 @@ def find_countermodel(S, premises, conclusion, *, max_worlds=2, extra_consts=1, 
     domain = sorted(consts)
     if has_q:
         used = {(c[1], c[2]) for c in domain}
-        n_extra = extra_consts if domain else max(1, extra_consts)
+        n_extra = extra_consts if domain else extra_consts + 1      # at least two elements without named constants
         k = 0
         while n_extra > 0:
             cand = (k % 4, 7 + k // 4)       # fresh names a7, b7, ...
